@@ -66,24 +66,26 @@ Theorem C02_varint_reader : forall b, bytes_ok b ->
   end.
 Proof. exact consume_varint_parse. Qed.
 
-(* T_dec. For every schema in the generator's feature set (tdec_applies: valid distinct numbers, no opaque custom
-   type), every message of it and EVERY byte string: Unmarshal of the generated code returns exactly the value the
+(* T_dec. For every message type all of whose reachable message types are in the generator's feature set
+   (tdec_applies_at: valid distinct numbers, no opaque custom type) and EVERY byte string: Unmarshal of the generated code returns exactly the value the
    reference decoder computes by merging the tokens of the input in order (fields in any order, packed or not,
    split repeated fields, non-minimal varints, unknown fields skipped or captured, duplicate map keys, nested
    messages merged), and returns an error exactly when the reference decoder rejects the input. *)
 Theorem C02_unmarshal_is_reference_decoder : forall s progs idx data t0,
-  gen_all s = GOk progs -> tdec_applies s = true -> bytes_ok data ->
+  gen_all s = GOk progs -> tdec_applies_at s idx = true -> bytes_ok data ->
   let r := pico_unmarshal progs idx data t0 in
   match ref_decode (S (S (S (length data)))) s idx data t0 with
   | Some t'' => fst r = None /\ snd r = t''
   | None => fst r <> None
   end.
-Proof. exact T_dec_b. Qed.
+Proof. exact T_dec_at. Qed.
 
-(* the side condition holds for the checked-in schemas whose custom types are modelled (test.proto uses
-   custom types without modelled semantics) *)
-Example C02_applies_to_checked_in : map tdec_applies checked_in_schemas = [false; true; true; true; true].
-Proof. vm_compute. reflexivity. Qed.
+(* the side condition holds for 32 of the 35 checked-in message types (three types of test.proto use, or contain,
+   custom types whose codecs are user code) *)
+Example C02_applies_to_checked_in :
+  map (fun s => length (filter (tdec_applies_at s) (seq 0 (length s)))) checked_in_schemas = [12; 8; 3; 5; 4]%nat /\
+  map (@length mdesc) checked_in_schemas = [15; 8; 3; 5; 4]%nat.
+Proof. vm_compute. split; reflexivity. Qed.
 
 (* What remains outside the theorem: that the reference decoder itself (Ref.ref_decode, 150 lines written from
    the encoding documentation) is the protobuf semantics - validated per run against protobuf-go on every generated
